@@ -427,7 +427,9 @@ Qed.
 Lemma abort_frame a clr w :
   let w' := fst (acc_abort_handlers a clr w) in
   w_tcp_reg w' = w_tcp_reg w /\ w_http w' = w_http w /\
-  t_chan (get_tcp w' a) = t_chan (get_tcp w a) /\ t_bound (get_tcp w' a) = t_bound (get_tcp w a).
+  t_chan (get_tcp w' a) = t_chan (get_tcp w a) /\ t_bound (get_tcp w' a) = t_bound (get_tcp w a) /\
+  a_conns (get_tcp w' a) = a_conns (get_tcp w a) /\ t_open (get_tcp w' a) = t_open (get_tcp w a) /\
+  a_h (get_tcp w' a) = None /\ a_h2 (get_tcp w' a) = None.
 Proof.
   unfold acc_abort_handlers, get_tcp, set_tcp. cbn [fst]. 
   Timeout 20 destruct (clr && _); cbn; rewrite mget_mset_eq; cbn; repeat split; reflexivity.
@@ -435,56 +437,97 @@ Qed.
 
 Lemma cancel_frame s w :
   let w' := fst (tcp_cancel s w) in
-  w_tcp_reg w' = w_tcp_reg w /\ w_http w' = w_http w /\ t_open (get_tcp w' s) = t_open (get_tcp w s).
+  w_tcp_reg w' = w_tcp_reg w /\ w_http w' = w_http w /\ t_open (get_tcp w' s) = t_open (get_tcp w s) /\
+  a_conns (get_tcp w' s) = a_conns (get_tcp w s) /\ a_h (get_tcp w' s) = a_h (get_tcp w s) /\ a_h2 (get_tcp w' s) = a_h2 (get_tcp w s).
 Proof.
   unfold tcp_cancel, tcp_abort_recv, tcp_abort_send, get_tcp, set_tcp. cbn.
   rewrite !mget_mset_eq. cbn. repeat split; reflexivity.
+Qed.
+
+Lemma acc_close0_spec cx a w e :
+  d6_close_clears (cv cx) = true ->
+  t_chan (get_tcp w a) = None -> t_bound (get_tcp w a) = e -> ep_eqb e ep_none = false ->
+  reg_find (w_tcp_reg w) e = Some a -> uniq (w_tcp_reg w) ->
+  let w' := fst (acc_close0 cx a w) in
+  reg_find (w_tcp_reg w') e = None /\ t_open (get_tcp w' a) = false /\ w_http w' = w_http w /\
+  a_conns (get_tcp w' a) = a_conns (get_tcp w a) /\ a_h (get_tcp w' a) = None /\ a_h2 (get_tcp w' a) = None.
+Proof.
+  intros D C Bd Ne R U. unfold acc_close0, acc_cancel.
+  set (w1 := set_tcp w a _).
+  assert (F1 : w_tcp_reg w1 = w_tcp_reg w /\ w_http w1 = w_http w /\ t_chan (get_tcp w1 a) = None /\ t_bound (get_tcp w1 a) = e
+               /\ a_conns (get_tcp w1 a) = a_conns (get_tcp w a)).
+  { subst w1. unfold get_tcp, set_tcp in *. cbn. rewrite mget_mset_eq. cbn. repeat split; auto. }
+  destruct F1 as (F1a & F1b & F1c & F1d & F1e).
+  pose proof (abort_frame a false w1) as F2. cbn zeta in F2.
+  destruct (acc_abort_handlers a false w1) as [w2 c1]. cbn [fst] in F2.
+  destruct F2 as (F2a & F2b & F2c & F2d & F2e & _ & F2h & F2h2).
+  rewrite F1c in F2c. rewrite F1d in F2d. rewrite F1a in F2a. rewrite F1b in F2b. rewrite F1e in F2e.
+  unfold tcp_close. rewrite F2c, F2d, Ne, D.
+  cbn [negb].
+  set (w3 := set_tcp _ a _).
+  assert (F3 : reg_find (w_tcp_reg w3) e = None /\ w_http w3 = w_http w /\ t_open (get_tcp w3 a) = false
+               /\ a_conns (get_tcp w3 a) = a_conns (get_tcp w a) /\ a_h (get_tcp w3 a) = None /\ a_h2 (get_tcp w3 a) = None).
+  { subst w3. unfold get_tcp, set_tcp, reset_fwd.
+    assert (X : reg_find (w_tcp_reg (unbind_tcp w2 a e)) e = None)
+      by (apply unbind_tcp_spec; [rewrite F2a; exact U|rewrite F2a; exact R]).
+    assert (Y : w_http (unbind_tcp w2 a e) = w_http w).
+    { unfold unbind_tcp. destruct (reg_find (w_tcp_reg w2) e) as [s'|]; [destruct (s' =? a)|]; cbn; exact F2b. }
+    unfold get_tcp in F2e, F2h, F2h2.
+    destruct (t_fwd _); cbn; rewrite mget_mset_eq; cbn; repeat split; auto. }
+  destruct F3 as (F3a & F3b & F3c & F3d & F3e & F3f).
+  pose proof (cancel_frame a w3) as F4. cbn zeta in F4.
+  destruct (tcp_cancel a w3) as [w4 c0]. cbn [fst] in *.
+  destruct F4 as (F4a & F4b & F4c & F4d & F4e & F4f).
+  rewrite F4a, F4b, F4c, F4d, F4e, F4f. repeat split; auto.
+Qed.
+
+(* nobody waiting in the backlog: the reset step of close() has nothing to do *)
+Lemma check_queue_closed_empty cx a w :
+  t_open (get_tcp w a) = false -> a_conns (get_tcp w a) = [] -> a_h (get_tcp w a) = None -> a_h2 (get_tcp w a) = None ->
+  let w' := fst (acc_check_queue cx a w) in
+  w_tcp_reg w' = w_tcp_reg w /\ w_http w' = w_http w /\ t_open (get_tcp w' a) = false.
+Proof.
+  intros O Cn H1 H2. unfold acc_check_queue. rewrite O, Cn. cbn [fold_left].
+  set (w1 := set_tcp w a _).
+  assert (G : w_tcp_reg w1 = w_tcp_reg w /\ w_http w1 = w_http w /\ t_open (get_tcp w1 a) = false /\
+              a_h (get_tcp w1 a) = None /\ a_h2 (get_tcp w1 a) = None).
+  { subst w1. unfold get_tcp, set_tcp in *. cbn. rewrite !mget_mset_eq. cbn. repeat split; auto. }
+  destruct G as (G1 & G2 & G3 & G4 & G5).
+  pose proof (abort_frame a true w1) as F. cbn zeta in F.
+  destruct (acc_abort_handlers a true w1) as [w2 c]. cbn [fst] in F.
+  destruct F as (F1 & F2 & _ & _ & _ & F6 & F7 & F8).
+  rewrite F7, F8. cbn [fst]. rewrite F1, F2, F6. auto.
 Qed.
 
 Lemma acc_close_spec cx a w e :
   d6_close_clears (cv cx) = true ->
   t_chan (get_tcp w a) = None -> t_bound (get_tcp w a) = e -> ep_eqb e ep_none = false ->
   reg_find (w_tcp_reg w) e = Some a -> uniq (w_tcp_reg w) ->
+  a_conns (get_tcp w a) = [] ->
   let w' := fst (acc_close cx a w) in
   reg_find (w_tcp_reg w') e = None /\ t_open (get_tcp w' a) = false /\ w_http w' = w_http w.
 Proof.
-  intros D C Bd Ne R U. unfold acc_close, acc_cancel.
-  set (w1 := set_tcp w a _).
-  assert (F1 : w_tcp_reg w1 = w_tcp_reg w /\ w_http w1 = w_http w /\ t_chan (get_tcp w1 a) = None /\ t_bound (get_tcp w1 a) = e).
-  { subst w1. unfold get_tcp, set_tcp in *. cbn. rewrite mget_mset_eq. cbn. auto. }
-  destruct F1 as (F1a & F1b & F1c & F1d).
-  pose proof (abort_frame a false w1) as F2. cbn zeta in F2.
-  destruct (acc_abort_handlers a false w1) as [w2 c1]. cbn [fst] in F2.
-  destruct F2 as (F2a & F2b & F2c & F2d).
-  rewrite F1c in F2c. rewrite F1d in F2d. rewrite F1a in F2a. rewrite F1b in F2b.
-  unfold tcp_close. rewrite F2c, F2d, Ne, D.
-  cbn [negb].
-  set (w3 := set_tcp _ a _).
-  assert (F3 : reg_find (w_tcp_reg w3) e = None /\ w_http w3 = w_http w /\ t_open (get_tcp w3 a) = false).
-  { subst w3. unfold get_tcp, set_tcp, reset_fwd. 
-    assert (X : reg_find (w_tcp_reg (unbind_tcp w2 a e)) e = None)
-      by (apply unbind_tcp_spec; [rewrite F2a; exact U|rewrite F2a; exact R]).
-    assert (Y : w_http (unbind_tcp w2 a e) = w_http w).
-    { unfold unbind_tcp. destruct (reg_find (w_tcp_reg w2) e) as [s'|]; [destruct (s' =? a)|]; cbn; exact F2b. }
-    destruct (t_fwd _); cbn; rewrite mget_mset_eq; cbn; auto. }
-  destruct F3 as (F3a & F3b & F3c).
-  pose proof (cancel_frame a w3) as F4. cbn zeta in F4.
-  destruct (tcp_cancel a w3) as [w4 c0]. cbn [fst] in *.
-  destruct F4 as (F4a & F4b & F4c).
-  rewrite F4a, F4b, F4c. auto.
+  intros D C Bd Ne R U Cn. unfold acc_close.
+  pose proof (acc_close0_spec cx a w e D C Bd Ne R U) as S. cbn zeta in S.
+  destruct (acc_close0 cx a w) as [w1 c]. cbn [fst] in S.
+  destruct S as (S1 & S2 & S3 & S4 & S5 & S6). rewrite Cn in S4.
+  destruct (d24_close_resets_backlog (cv cx)); [|cbn [fst]; auto].
+  pose proof (check_queue_closed_empty cx a w1 S2 S4 S5 S6) as K. cbn zeta in K.
+  destruct (acc_check_queue cx a w1) as [w2 c3]. cbn [fst] in *.
+  destruct K as (K1 & K2 & K3). rewrite K1, K2. auto.
 Qed.
 
 Theorem http_stop_frees_the_port cx srv w e :
   let a := http_acc srv in
   d6_close_clears (cv cx) = true ->
   t_chan (get_tcp w a) = None -> t_bound (get_tcp w a) = e -> ep_eqb e ep_none = false ->
-  reg_find (w_tcp_reg w) e = Some a -> uniq (w_tcp_reg w) ->
+  reg_find (w_tcp_reg w) e = Some a -> uniq (w_tcp_reg w) -> a_conns (get_tcp w a) = [] ->
   let w' := fst (http_stop cx srv w) in
   reg_find (w_tcp_reg w') e = None /\ t_open (get_tcp w' a) = false /\ hs_close (get_http w' srv) = true.
 Proof.
-  intros a D C Bd Ne R U. unfold http_stop.
+  intros a D C Bd Ne R U Cn. unfold http_stop.
   set (w0 := set_http w srv _).
-  destruct (acc_close_spec cx a w0 e D C Bd Ne R U) as (A1 & A2 & A3).
+  destruct (acc_close_spec cx a w0 e D C Bd Ne R U Cn) as (A1 & A2 & A3).
   repeat split; [exact A1|exact A2|].
   fold a. unfold get_http at 1. rewrite A3. subst w0. unfold set_http, get_http. cbn. rewrite mget_mset_eq. reflexivity.
 Qed.
@@ -494,12 +537,12 @@ Corollary connect_after_stop_is_refused cx srv w e s :
   let a := http_acc srv in
   d6_close_clears (cv cx) = true ->
   t_chan (get_tcp w a) = None -> t_bound (get_tcp w a) = e -> ep_eqb e ep_none = false ->
-  reg_find (w_tcp_reg w) e = Some a -> uniq (w_tcp_reg w) ->
+  reg_find (w_tcp_reg w) e = Some a -> uniq (w_tcp_reg w) -> a_conns (get_tcp w a) = [] ->
   let w' := fst (http_stop cx srv w) in
   sim_internal_connect cx s e w' = (EC_REFUSED, None, w', []).
 Proof.
-  intros a D C Bd Ne R U w'.
-  destruct (http_stop_frees_the_port cx srv w e D C Bd Ne R U) as (A1 & _).
+  intros a D C Bd Ne R U Cn w'.
+  destruct (http_stop_frees_the_port cx srv w e D C Bd Ne R U Cn) as (A1 & _).
   apply SockProofs.connect_refused_otherwise. intros r Hr. fold a in A1. fold w' in A1. rewrite A1 in Hr. discriminate.
 Qed.
 
